@@ -24,7 +24,8 @@ F_WGS84 = 1.0 / 298.257223563
 E2_WGS84 = F_WGS84 * (2.0 - F_WGS84)
 GEO_ATOL = 1e-6           # metres
 
-OPS = ["a", "s", "as", "sa", "aa", "ss", "asas", "c", "ca", "ac", "o", "oa", "ao", "da", "ad", "d", "sas", "acso", "osca"]
+OPS = ["a", "s", "as", "sa", "aa", "ss", "asas", "c", "ca", "ac", "o", "oa", "ao", "da", "ad", "d", "sas", "acso", "osca",
+       "S", "aS", "Sa", "SS", "sS", "oSc"]          # S = the method track.estimate_speed()
 
 
 # ---------------------------------------------------------------- independent geodesy
@@ -147,11 +148,16 @@ def shrink_coords(case):
             yield dict(case, ops=case["ops"][:i] + case["ops"][i + 1:])
     if n > 2:
         for i in range(n):
-            yield dict(case, pos=case["pos"][:i] + case["pos"][i + 1:], tms=case["tms"][:i] + case["tms"][i + 1:],
-                       feats=[[nm, col[:i] + col[i + 1:]] for nm, col in case["feats"]])
+            c = dict(case, pos=case["pos"][:i] + case["pos"][i + 1:], tms=case["tms"][:i] + case["tms"][i + 1:],
+                     feats=[[nm, col[:i] + col[i + 1:]] for nm, col in case["feats"]])
+            if case.get("zones"):
+                c["zones"] = case["zones"][:i] + case["zones"][i + 1:]
+            yield c
     if case["feats"]:
         for i in range(len(case["feats"])):
             yield dict(case, feats=case["feats"][:i] + case["feats"][i + 1:])
+    if any(case.get("zones") or []):
+        yield {k: v for k, v in case.items() if k != "zones"}
     if case["cls"] != "X" and any(p[2] != 0 for p in case["pos"]):
         yield dict(case, pos=[[p[0], p[1], 0.0] for p in case["pos"]])
     t0 = case["tms"][0]
